@@ -928,6 +928,6 @@ from contracts.common import callee_units as _callee_units   # noqa: E402
 UNITS = UNITS + _callee_units([('C02', None), ('C05', {'read_neighbors'})], UNITS)
 
 MANIFEST = {
-    "text": "time_average, spatial_average, gaussian_blurring (utils/coarse_graining.py) and grid_gaussian (utils/funcs.py), real ASTs re-read every run, symbolic frame number T, particle number N, trailing dimensions, grid sizes n0,n1(,n2) >= 2, window length, Nmax, sigma, cutoff, periodicity mask: (1) time_average returns T-w rows with w = floor(period/((ts1-ts0) dt)), row n = mean of frames n..n+w-1 (float and complex input), and reports the central frame of that window (n+(w-1)/2 for odd w, one of the two middle frames for even w); (2) spatial_average[n,i,..] = (A[n,i,..] + sum over the first min(cn,Nmax) listed neighbours j of A[n,j,..]) / (1 + min(cn,Nmax)) for ranks 0,1,2 (float, complex), with the n-th record of the neighbour file used for frame n (one handle, read_neighbors callee contract), input array not written, saved file = returned array; (3) gaussian_blurring: the store that fills the grid uses a flat index that lies in [0, prod n), is injective on the index tuples, equals the row-major index with x slowest, the loops run over all n0*n1(*n2) tuples, and the stored point is (X_i,Y_j[,Z_k]) with X,Y,Z equally spaced from the lower to the upper box bound of the same frame (2D and 3D, equal or unequal numbers per axis); for every frame n, returned grid point p and trailing index, grid_property = sum over particles q with |D| < cutoff of exp(-|D|^2/(2 sigma^2))/sqrt(2 pi sigma^2) * property[n,q,..], D the minimum image (C02 contract) of grid point minus particle position (scalar, vector, tensor); inputs not written, saved files = returned arrays; (4) grid_gaussian(x, sigma) = exp(-x^2/(2 sigma^2))/sqrt(2 pi sigma^2) elementwise.",
+    "text": "time_average, spatial_average, gaussian_blurring (utils/coarse_graining.py) and grid_gaussian (utils/funcs.py), real ASTs re-read every run, symbolic frame number T, particle number N, trailing dimensions, grid sizes n0,n1(,n2) >= 2, window length, Nmax, sigma, cutoff, periodicity mask: (1) time_average returns T-w rows with w = floor(period/((ts1-ts0) dt)), row n = mean of frames n..n+w-1 (float and complex input), and reports the central frame of that window (n+(w-1)/2 for odd w, one of the two middle frames for even w); (2) spatial_average[n,i,..] = (A[n,i,..] + sum over the first min(cn,Nmax) listed neighbours j of A[n,j,..]) / (1 + min(cn,Nmax)) for ranks 0,1,2 (float, complex), with the n-th record of the neighbour file used for frame n (one handle, read_neighbors callee contract), input array not written, saved file = returned array; (3) gaussian_blurring: the store that fills the grid uses a flat index that lies in [0, prod n), is injective on the index tuples, equals the row-major index with x slowest, the loops run over all n0*n1(*n2) tuples, and the stored point is (X_i,Y_j[,Z_k]) with X,Y,Z equally spaced from the lower to the upper box bound of the same frame (2D and 3D, equal or unequal numbers per axis); every slot p of a frame is written by exactly the iteration whose index tuple is the row-major decoding of p (written ghost inverse; obligations on the real store condition), hence the RETURNED grid_positions[n, p] is the grid point with index tuple decode(p) for symbolic grid sizes, and decoding is an order-preserving bijection (lemmas): every grid point exactly once, x slowest; for every frame n, returned grid point p and trailing index, grid_property = sum over particles q with |D| < cutoff of exp(-|D|^2/(2 sigma^2))/sqrt(2 pi sigma^2) * property[n,q,..], D the minimum image (C02 contract) of grid point minus particle position (scalar, vector, tensor); inputs not written, saved files = returned arrays; (4) grid_gaussian(x, sigma) = exp(-x^2/(2 sigma^2))/sqrt(2 pi sigma^2) elementwise.",
     "note": "floats as reals (A1); callee contracts of read_neighbors (assumed here, C05) and remove_pbc (C02); well-formed neighbour file and non-singular cells assumed; the content of the RETURNED grid array for symbolic grid sizes is proved through a written ghost inverse of the flat index (row-major decoding; slot written by exactly the iteration decode(p): obligations on the real store) + the lemma that decoding is an order-preserving bijection; loop summaries are checked by init/step obligations; on the pinned tree before the two fix commits the clauses middle-index (time_average) and flat-index in range / injective / row-major (gaussian_blurring) are REFUTED with failing replays (design_notes/C16.md)",
 }
